@@ -74,6 +74,10 @@ def stages(tier, seed, bins):
                 # huge norms make the induced distance sqrt(k_aa - 2k_ab + k_bb) cancel catastrophically;
                 # keep those for plain distances, use moderate data for kernels
                 c["data"] = "gauss"
+        # the same sample set in a very different unit (all distances far below 1e-16, or far above 1e16): nearest neighbours do
+        # not depend on the unit; a tolerance that is absolute does. rbf would under/overflow and poly is not scale free: skip.
+        if rnd.random() < 0.2 and c.get("kernel") in (None, "linear") and c.get("dist") != "discrete":
+            c["xscale"] = rnd.choice(["1e-12", "8.8817841970012523e-16", "8.6736173798840355e-19", "1e-30", "1e30", "1e-6", "1e6"])
         c["timeout"] = 300 if N <= 300 else 1200
         add(**c)
     return [dict(name="knn", exe=bins["neighbors"], cases=cases, timeout=300)]
